@@ -1,8 +1,8 @@
 """C12 -- request media is parsed at most once; media (de)serialisation plumbing.
 
 Decided here, on the current source of
-    falcon/request.py        Request.get_media, Request.media
-    falcon/asgi/request.py   Request.get_media, Request.media
+    falcon/request.py        Request.get_media, Request.media, Request.__init__ (base case: FRESH)
+    falcon/asgi/request.py   Request.get_media, Request.media, Request.__init__ (base case: FRESH)
     falcon/media/json.py     JSONHandler.__init__/_deserialize/deserialize/deserialize_async/
                              _serialize_s/_serialize_b/_serialize_async_s/_serialize_async_b
     falcon/media/urlencoded.py  URLEncodedFormHandler._deserialize/deserialize/deserialize_async/serialize
@@ -32,7 +32,7 @@ from __future__ import annotations
 
 import z3
 
-from pyvc.core import And, ExcVal, Iff, Implies, Len, Not, Or, Outcome, PyRaise, SStr, mk_bool
+from pyvc.core import And, ExcVal, Iff, Len, Outcome, PyRaise, SStr, mk_bool
 from pyvc.harness import Ready, harness, native, stubclass
 
 PROP = 'C12'
@@ -116,21 +116,6 @@ def get_attr(v, o, name):
             return Outcome(exc=ExcVal(type(e), e.args, real=e))
     try:
         return Outcome(value=v.interp.getattr(o, name))
-    except PyRaise as e:
-        return Outcome(exc=e.exc)
-
-
-def call_attr(v, o, name, *args, **kwargs):
-    """`o.name(*args)` where `name` is looked up on the instance first (JSONHandler.serialize is an instance attribute)."""
-    if v.concrete:
-        try:
-            return Outcome(value=_finish(getattr(o, name)(*args, **kwargs)))
-        except Exception as e:  # noqa: BLE001
-            return Outcome(exc=ExcVal(type(e), e.args, real=e))
-    I = v.interp
-    try:
-        fn = I.getattr(o, name)
-        return Outcome(value=I.call(fn, list(args), dict(kwargs)))
     except PyRaise as e:
         return Outcome(exc=e.exc)
 
@@ -262,13 +247,11 @@ class AsgiBody:
         return Ready(None)
 
 
-
-
 class World:
     """A request in one of the three automaton states plus its (stub) environment."""
 
 
-def mk_world(v, asgi):
+def mk_world(v, asgi, with_default=True):
     w = World()
     w.asgi = asgi
     w.trace = []
@@ -304,7 +287,7 @@ def mk_world(v, asgi):
         w.stream = WsgiBody(w.trace)
         env = {'CONTENT_LENGTH': '17'} if w.has_cl else {}
         w.req = v.obj(WREQ, _media=w.m0, _media_error=e0_field, options=w.options, content_type=w.ct, env=env, _bounded_stream=w.stream)
-    d = v.choose(3, 'default_when_empty')
+    d = v.choose(3, 'default_when_empty') if with_default else 0
     w.default_given = d != 0
     w.default = Doc("caller's default") if d == 1 else None
     return w
@@ -410,10 +393,878 @@ def asgi_get_media(v):
     spec_get_media(v, w, out)
 
 
-ASSUMPTIONS = []
-NOT_DECIDED = []
-TRUSTED = []
-_GM = 'get_media#'
+@harness(PROP, WREQ + '.media', inline=[WREQ + '.content_length', WREQ + '.bounded_stream'])
+def wsgi_media_property(v):
+    """req.media is get_media() without a default: same automaton, reached through the real attribute lookup."""
+    cls = v.real(WREQ)
+    p = cls.__dict__.get('media')
+    v.check('media-is-a-property-over-get_media', isinstance(p, property) and p.fget is cls.__dict__['get_media'])
+    touch(v, WREQ + '.get_media')
+    w = mk_world(v, asgi=False, with_default=False)
+    out = get_attr(v, w.req, 'media')
+    spec_get_media(v, w, out)
+
+
+@harness(PROP, AREQ + '.media', inline=[AREQ + '.content_length', AREQ + '.stream'])
+def asgi_media_property(v):
+    cls = v.real(AREQ)
+    p = cls.__dict__.get('media')
+    v.check('media-is-a-property-over-get_media', isinstance(p, property) and p.fget is cls.__dict__['get_media'])
+    touch(v, AREQ + '.get_media')
+    w = mk_world(v, asgi=True, with_default=False)
+    out = get_attr(v, w.req, 'media')
+    spec_get_media(v, w, out)
+
+
+def _environ(v, body_type):
+    from falcon import testing
+
+    return testing.create_environ(path='/things', method='POST', headers={'Content-Type': body_type}, body=b'{}')
+
+
+@harness(PROP, WREQ + '.__init__', inline=['falcon.*'])
+def wsgi_request_starts_fresh(v):
+    """Base case of the induction: a new request is FRESH (nothing parsed, nothing cached)."""
+    UNSET = unset(v)
+    ct = ['application/json', 'application/x-www-form-urlencoded'][v.choose(2, 'content-type')]
+    trace = []
+    opts = Options(HandlerRegistry(v, trace, MediaHandler(v, trace, False)))
+    opts.strip_url_path_trailing_slash = False
+    opts._auto_parse_form_urlencoded = False
+    opts.keep_blank_qs_values = True
+    opts.auto_parse_qs_csv = False
+    req = v.obj(WREQ)
+    out = v.call(req, _environ(v, ct), opts)
+    v.check('no-exception', out.exc is None)
+    if out.exc is not None:
+        return
+    v.check('new-request-is-fresh', v.get(req, '_media') is UNSET and v.get(req, '_media_error') is None)
+    v.check('construction-neither-resolves-nor-parses', len(trace) == 0)
+    v.cover('constructed')
+
+
+@harness(PROP, AREQ + '.__init__', inline=['falcon.*'])
+def asgi_request_starts_fresh(v):
+    """ASGI: the two fields are class-level defaults; after construction the instance still reads FRESH."""
+    from falcon import testing
+
+    UNSET = unset(v)
+    ct = ['application/json', 'application/x-www-form-urlencoded'][v.choose(2, 'content-type')]
+    trace = []
+    opts = Options(HandlerRegistry(v, trace, MediaHandler(v, trace, False)))
+    opts.strip_url_path_trailing_slash = False
+    opts._auto_parse_form_urlencoded = False
+    opts.keep_blank_qs_values = True
+    opts.auto_parse_qs_csv = False
+    scope = testing.create_scope(path='/things', method='POST', headers={'Content-Type': ct})
+    receive = Doc('receive callable')
+    req = v.obj(AREQ)
+    out = v.call(req, scope, receive, None, opts)
+    v.check('no-exception', out.exc is None)
+    if out.exc is not None:
+        return
+    m, e = get_attr(v, req, '_media'), get_attr(v, req, '_media_error')
+    v.check('new-request-is-fresh', m.exc is None and e.exc is None and m.value is UNSET and e.value is None)
+    v.check('construction-neither-resolves-nor-parses', len(trace) == 0)
+    v.cover('constructed')
+
+
+# ---------------------------------------------------------------------------
+# codecs: bytes <-> str.  Byte strings are SMT strings over code points 0..255
+# (latin-1 view); UTF-8 well-formedness is the exact regular language of RFC 3629.
+
+
+def _R(a, b):
+    return z3.Range(z3.StringVal(chr(a)), z3.StringVal(chr(b)))
+
+
+_RE = {}
+
+
+def _re(name):
+    if not _RE:
+        c = _R(0x80, 0xBF)
+        _RE['utf8'] = z3.Star(z3.Union(
+            _R(0x00, 0x7F),
+            z3.Concat(_R(0xC2, 0xDF), c),
+            z3.Concat(_R(0xE0, 0xE0), _R(0xA0, 0xBF), c),
+            z3.Concat(_R(0xE1, 0xEC), c, c),
+            z3.Concat(_R(0xED, 0xED), _R(0x80, 0x9F), c),
+            z3.Concat(_R(0xEE, 0xEF), c, c),
+            z3.Concat(_R(0xF0, 0xF0), _R(0x90, 0xBF), c, c),
+            z3.Concat(_R(0xF1, 0xF3), c, c, c),
+            z3.Concat(_R(0xF4, 0xF4), _R(0x80, 0x8F), c, c),
+        ))
+        _RE['ascii'] = z3.Star(_R(0x00, 0x7F))
+        _RE['bytes'] = z3.Star(_R(0x00, 0xFF))
+        # text that UTF-8 can encode: no surrogate code points (z3 characters end at U+2FFFF)
+        _RE['scalar'] = z3.Star(z3.Union(_R(0x0000, 0xD7FF), _R(0xE000, 0x2FFFF)))
+    return _RE[name]
+
+
+def _UF(name):
+    return z3.Function(name, z3.StringSort(), z3.StringSort())
+
+
+def _norm_enc(enc):
+    e = enc.lower().replace('_', '-')
+    return {'utf8': 'utf-8', 'us-ascii': 'ascii', 'latin1': 'latin-1', 'iso-8859-1': 'latin-1'}.get(e, e)
+
+
+def codec_model(ctx, direction, s, enc, errors):
+    """bytes.decode / str.encode with errors='strict' for utf-8 and ascii (Python codec documentation)."""
+    from pyvc.core import Unreached
+
+    enc = _norm_enc(enc)
+    if errors != 'strict':
+        raise Unreached('codec error handler %r' % errors)
+    if direction == 'decode' and enc == 'utf-8':
+        if ctx.branch(z3.Not(z3.InRe(s.t, _re('utf8'))), label='utf8-undecodable'):
+            raise PyRaise(ExcVal(UnicodeDecodeError, ('utf-8', b'', 0, 1, 'invalid start byte')))
+        r = _UF('utf8.decode')(s.t)
+        ctx.assume(mk_bool(z3.And(z3.Length(r) <= z3.Length(s.t), (z3.Length(r) == 0) == (z3.Length(s.t) == 0), z3.InRe(r, _re('scalar')))))
+        return SStr(r, 'str')
+    if direction == 'decode' and enc == 'ascii':
+        if ctx.branch(z3.Not(z3.InRe(s.t, _re('ascii'))), label='ascii-undecodable'):
+            raise PyRaise(ExcVal(UnicodeDecodeError, ('ascii', b'', 0, 1, 'ordinal not in range(128)')))
+        return SStr(s.t, 'str')  # same code points
+    if direction == 'encode' and enc == 'utf-8':
+        if ctx.branch(z3.Not(z3.InRe(s.t, _re('scalar'))), label='utf8-unencodable'):
+            raise PyRaise(ExcVal(UnicodeEncodeError, ('utf-8', '', 0, 1, 'surrogates not allowed')))
+        r = _UF('utf8.encode')(s.t)
+        ctx.assume(mk_bool(z3.And(
+            z3.InRe(r, _re('utf8')),
+            _UF('utf8.decode')(r) == s.t,
+            z3.Length(r) >= z3.Length(s.t),
+            (z3.Length(r) == 0) == (z3.Length(s.t) == 0),
+            z3.Implies(z3.InRe(s.t, _re('ascii')), r == s.t),
+        )))
+        return SStr(r, 'bytes')
+    if direction == 'encode' and enc == 'latin-1':
+        if ctx.branch(z3.Not(z3.InRe(s.t, _re('bytes'))), label='latin1-unencodable'):
+            raise PyRaise(ExcVal(UnicodeEncodeError, ('latin-1', '', 0, 1, 'ordinal not in range(256)')))
+        return SStr(s.t, 'bytes')  # same code points
+    raise Unreached('%s with codec %r has no model' % (direction, enc))
+
+
+def _codecs(reg, ex):
+    ex.codec_handler = codec_model
+
+
+def in_re(v, x, name):
+    """Spec-side membership (both modes)."""
+    if isinstance(x, SStr):
+        return mk_bool(z3.InRe(x.t, _re(name)))
+    if name == 'utf8':
+        try:
+            x.decode('utf-8')
+            return True
+        except UnicodeDecodeError:
+            return False
+    if name == 'ascii':
+        return all((c if isinstance(c, int) else ord(c)) < 128 for c in x)
+    if name == 'scalar':
+        return not any(0xD800 <= ord(c) <= 0xDFFF for c in x)
+    if name == 'bytes':
+        return True
+    raise KeyError(name)
+
+
+def utf8_encoded(x):
+    return SStr(_UF('utf8.encode')(x.t), 'bytes') if isinstance(x, SStr) else x.encode('utf-8')
+
+
+def utf8_decoded(x):
+    return SStr(_UF('utf8.decode')(x.t), 'str') if isinstance(x, SStr) else x.decode('utf-8')
+
+
+def in_bytes(v, name):
+    b = v.bytes(name)
+    v.assume(in_re(v, b, 'bytes'))
+    return b
+
+
+# ---------------------------------------------------------------------------
+# JSONHandler
+
+
+@stubclass
+class Loads:
+    """json.loads (or a drop-in): a document, or a ValueError of one of the three kinds seen in practice."""
+
+    def __init__(self, v):
+        self.v = v
+        self.calls = []
+        self.result = None
+        self.returned = False
+        self.raised = None
+
+    def __call__(self, text):
+        import json
+
+        v = self.v
+        self.calls.append(text)
+        k = v.choose(5, 'loads-outcome')
+        if k in (0, 1):
+            self.returned = True
+            self.result = Doc('loaded document') if k == 0 else None
+            return self.result
+        if k == 2:
+            self.raised = mk_exc(ValueError, 'malformed document')
+        elif k == 3:
+            self.raised = mk_exc(json.JSONDecodeError, 'Expecting value', 'x', 0)
+        else:
+            self.raised = mk_exc(UnicodeDecodeError, 'utf-8', b'\xff', 0, 1, 'invalid start byte')
+        throw(v, self.raised)
+
+
+@stubclass
+class Dumps:
+    """json.dumps (or a drop-in such as orjson.dumps that returns bytes)."""
+
+    def __init__(self, v, returns_bytes):
+        self.v = v
+        self.returns_bytes = returns_bytes
+        self.calls = []
+        self.results = []
+
+    def __call__(self, media):
+        v = self.v
+        self.calls.append(media)
+        if self.returns_bytes:
+            r = in_bytes(v, 'dumped_bytes')
+        else:
+            r = v.str('dumped_text')
+            v.assume(in_re(v, r, 'scalar'))  # ASSUMPTIONS: the serialised text has no lone surrogates
+        self.results.append(r)
+        return r
+
+
+@stubclass
+class ByteSource:
+    """A body stream whose read() returns the whole declared body (C07); sync or async."""
+
+    def __init__(self, body, is_async=False):
+        self.body = body
+        self.is_async = is_async
+        self.reads = []
+
+    def read(self, size=None):
+        self.reads.append(size)
+        return Ready(self.body) if self.is_async else self.body
+
+
+def json_deserialize_post(v, data, loads, out):
+    """JSONHandler._deserialize(data), from the statement: empty -> not found; undecodable -> 400 malformed."""
+    NotFound = v.real('falcon.errors:MediaNotFoundError')
+    Malformed = v.real('falcon.errors:MediaMalformedError')
+    if Len(data) == 0:
+        v.check('empty-body-raises-media-not-found', out.exc is not None and out.exc.isa(NotFound) and status_code(out.exc) == 400)
+        v.check('empty-body-never-reaches-loads', len(loads.calls) == 0)
+        v.cover('empty')
+        return
+    if not in_re(v, data, 'utf8'):
+        v.check('bytes-that-are-not-utf8-raise-malformed-media-400', out.exc is not None and out.exc.isa(Malformed) and status_code(out.exc) == 400)
+        v.check('undecodable-bytes-never-reach-loads', len(loads.calls) == 0)
+        v.cover('not-utf8')
+        return
+    v.check('loads-called-exactly-once-with-the-utf8-decoded-body', And(len(loads.calls) == 1, loads.calls[0] == utf8_decoded(data)) if len(loads.calls) == 1 else False)
+    if loads.returned:
+        v.check('returns-the-document-loads-returned', out.exc is None and out.value is loads.result)
+        v.cover('document')
+    else:
+        v.check('text-rejected-by-loads-raises-malformed-media-400', out.exc is not None and out.exc.isa(Malformed) and status_code(out.exc) == 400)
+        v.cover('rejected-by-loads')
+
+
+@harness(PROP, JSONH + '._deserialize', setup=_codecs)
+def json__deserialize(v):
+    data = in_bytes(v, 'data')
+    loads = Loads(v)
+    h = v.obj(JSONH, _loads=loads, _dumps=None)
+    out = v.call(h, data)
+    json_deserialize_post(v, data, loads, out)
+
+
+@harness(PROP, JSONH + '.deserialize', setup=_codecs, inline=[JSONH + '._deserialize'])
+def json_deserialize(v):
+    """deserialize(stream, ...) == _deserialize(stream.read()): one unsized read of the whole body."""
+    data = in_bytes(v, 'body')
+    src = ByteSource(data)
+    loads = Loads(v)
+    h = v.obj(JSONH, _loads=loads, _dumps=None)
+    cl = v.int('content_length', 0) if v.choose(2, 'content-length?') else None
+    out = v.call(h, src, 'application/json', cl)
+    v.check('reads-the-whole-body-with-one-unsized-read', src.reads == [None])
+    json_deserialize_post(v, data, loads, out)
+
+
+@harness(PROP, JSONH + '.deserialize_async', setup=_codecs, inline=[JSONH + '._deserialize'])
+def json_deserialize_async(v):
+    data = in_bytes(v, 'body')
+    src = ByteSource(data, is_async=True)
+    loads = Loads(v)
+    h = v.obj(JSONH, _loads=loads, _dumps=None)
+    cl = v.int('content_length', 0) if v.choose(2, 'content-length?') else None
+    out = v.call(h, src, 'application/json', cl)
+    v.check('reads-the-whole-body-with-one-unsized-read', src.reads == [None])
+    json_deserialize_post(v, data, loads, out)
+
+
+def _serialize_variant(v, async_, returns_bytes):
+    dumps = Dumps(v, returns_bytes)
+    h = v.obj(JSONH, _dumps=dumps, _loads=None)
+    media = Doc('response media')
+    if async_ or v.choose(2, 'content-type-passed'):
+        out = v.call(h, media, 'application/json')
+    else:
+        out = v.call(h, media)  # Response.render_body shortcut: content_type is optional for the sync variants
+    v.check('no-exception', out.exc is None)
+    if out.exc is not None:
+        return
+    v.check('dumps-called-exactly-once-with-the-media-object', len(dumps.calls) == 1 and dumps.calls[0] is media)
+    if len(dumps.results) != 1:
+        return
+    if returns_bytes:
+        v.check('returns-the-bytes-dumps-produced', out.value == dumps.results[0])
+    else:
+        v.check('returns-dumps-text-encoded-as-utf8', out.value == utf8_encoded(dumps.results[0]))
+    v.cover('serialized')
+
+
+@harness(PROP, JSONH + '._serialize_s', setup=_codecs)
+def json_serialize_s(v):
+    _serialize_variant(v, False, False)
+
+
+@harness(PROP, JSONH + '._serialize_b', setup=_codecs)
+def json_serialize_b(v):
+    _serialize_variant(v, False, True)
+
+
+@harness(PROP, JSONH + '._serialize_async_s', setup=_codecs)
+def json_serialize_async_s(v):
+    _serialize_variant(v, True, False)
+
+
+@harness(PROP, JSONH + '._serialize_async_b', setup=_codecs)
+def json_serialize_async_b(v):
+    _serialize_variant(v, True, True)
+
+
+def fn_name(m):
+    """Name of the function behind a bound method (interpreted BoundMethod or real method)."""
+    f = getattr(m, 'func', None)
+    if f is not None and hasattr(f, 'qualname'):
+        return f.qualname.split('.')[-1]
+    f = getattr(m, '__func__', None)
+    return getattr(f, '__name__', None)
+
+
+def fn_self(m):
+    return m.self_obj if hasattr(m, 'self_obj') else getattr(m, '__self__', None)
+
+
+@harness(PROP, JSONH + '.__init__', setup=_codecs)
+def json_init(v):
+    """The constructor picks the serializer by the type dumps returns and publishes the sync fast path."""
+    returns_bytes = bool(v.choose(2, 'dumps-returns-bytes'))
+    dumps = Dumps(v, returns_bytes)
+    loads = Loads(v)
+    h = v.obj(JSONH)
+    out = v.call(h, dumps, loads)
+    v.check('no-exception', out.exc is None)
+    if out.exc is not None:
+        return
+    v.check('uses-the-given-dumps-and-loads', v.get(h, '_dumps') is dumps and v.get(h, '_loads') is loads)
+    v.check('probe-does-not-call-loads', len(loads.calls) == 0)
+    ser, aser = v.get(h, 'serialize'), v.get(h, 'serialize_async')
+    want = '_serialize_b' if returns_bytes else '_serialize_s'
+    awant = '_serialize_async_b' if returns_bytes else '_serialize_async_s'
+    v.check('serializer-encodes-iff-dumps-returns-text', fn_name(ser) == want and fn_self(ser) is h)
+    v.check('async-serializer-encodes-iff-dumps-returns-text', fn_name(aser) == awant and fn_self(aser) is h)
+    ss, ds = v.get(h, '_serialize_sync'), v.get(h, '_deserialize_sync')
+    v.check('sync-fast-path-is-the-same-serializer', fn_name(ss) == want and fn_self(ss) is h)
+    v.check('sync-fast-path-deserializer-is-_deserialize', fn_name(ds) == '_deserialize' and fn_self(ds) is h)
+    v.cover('constructed')
+
+
+@harness(PROP, JSONH + '.deserialize', name='json_round_trip_plumbing', setup=_codecs, inline=[JSONH + '._deserialize'])
+def json_round_trip_plumbing(v):
+    """deserialize(stream over serialize(m)) hands loads exactly the text dumps(m) produced.
+
+    Hence deserialize(serialize(m)) == loads(dumps(m)); that this equals m is the assumed json contract.
+    """
+    dumps = Dumps(v, False)
+    loads = Loads(v)
+    h = v.obj(JSONH, _dumps=dumps, _loads=loads)
+    media = Doc('response media')
+    ser = v.call(h, media, 'application/json', target=JSONH + '._serialize_s')
+    if ser.exc is not None or len(dumps.results) != 1:
+        v.check('serialize-does-not-raise', False)
+        return
+    text = dumps.results[0]
+    v.assume(Len(text) > 0)  # ASSUMPTIONS: a JSON text is never empty
+    body = ser.value
+    is_async = bool(v.choose(2, 'asgi'))
+    src = ByteSource(body, is_async=is_async)
+    out = v.call(h, src, 'application/json', None, target=JSONH + ('.deserialize_async' if is_async else '.deserialize'))
+    v.check('loads-receives-exactly-the-text-dumps-produced', And(len(loads.calls) == 1, loads.calls[0] == text) if len(loads.calls) == 1 else False)
+    if loads.returned:
+        v.check('round-trip-result-is-loads-of-dumps', out.exc is None and out.value is loads.result)
+        v.cover('round-trip')
+    else:
+        v.check('round-trip-failure-only-if-loads-rejects-dumps-output', out.exc is not None and out.exc.isa(v.real('falcon.errors:MediaMalformedError')))
+
+
+# ---------------------------------------------------------------------------
+# URLEncodedFormHandler
+
+
+class patched:
+    """Replace a module-level name of the (overlay) module while the subject runs: an opaque dependency."""
+
+    def __init__(self, v, module, name, value):
+        self.mod = v.real(module)
+        self.name = name
+        self.value = value
+
+    def __enter__(self):
+        self.saved = self.mod.__dict__[self.name]
+        setattr(self.mod, self.name, self.value)
+        return self.value
+
+    def __exit__(self, *a):
+        setattr(self.mod, self.name, self.saved)
+        return False
+
+
+@stubclass
+class ParseQS:
+    """falcon.util.uri.parse_query_string (contract of C08): a mapping, or any exception."""
+
+    def __init__(self, v):
+        self.v = v
+        self.calls = []
+        self.result = None
+        self.returned = False
+        self.raised = None
+
+    def __call__(self, *args, **kwargs):
+        v = self.v
+        self.calls.append((args, kwargs))
+        k = v.choose(3, 'parse-outcome')
+        if k == 0:
+            self.returned = True
+            self.result = Doc('form mapping')
+            return self.result
+        self.raised = mk_exc(ValueError, 'bad form') if k == 1 else mk_exc(RuntimeError, 'unexpected parser failure')
+        throw(v, self.raised)
+
+
+def urlencoded_deserialize_post(v, body, pqs, keep_blank, csv, out):
+    Malformed = v.real('falcon.errors:MediaMalformedError')
+    if not in_re(v, body, 'ascii'):
+        v.check('non-ascii-body-raises-malformed-media-400', out.exc is not None and out.exc.isa(Malformed) and status_code(out.exc) == 400)
+        v.check('non-ascii-body-never-reaches-the-parser', len(pqs.calls) == 0)
+        v.cover('not-ascii')
+        return
+    ok = len(pqs.calls) == 1
+    v.check('parser-called-exactly-once', ok)
+    if not ok:
+        return
+    args, kwargs = pqs.calls[0]
+    v.check('parser-receives-the-ascii-decoded-body-and-the-handler-options',
+            And(len(args) == 1 and sorted(kwargs) == ['csv', 'keep_blank'], args[0] == (SStr(body.t, 'str') if isinstance(body, SStr) else body.decode('ascii')),
+                kwargs.get('keep_blank') is keep_blank, kwargs.get('csv') is csv))
+    if pqs.returned:
+        v.check('returns-the-mapping-the-parser-returned', out.exc is None and out.value is pqs.result)
+        v.cover('parsed')
+    else:
+        v.check('any-parser-exception-raises-malformed-media-400', out.exc is not None and out.exc.isa(Malformed) and status_code(out.exc) == 400)
+        v.cover('parser-raised')
+
+
+def _urlencoded_world(v):
+    body = in_bytes(v, 'body')
+    keep_blank = bool(v.choose(2, 'keep_blank'))
+    csv = bool(v.choose(2, 'csv'))
+    h = v.obj(URLH, _keep_blank=keep_blank, _csv=csv)
+    return body, keep_blank, csv, h, ParseQS(v)
+
+
+@harness(PROP, URLH + '._deserialize', setup=_codecs)
+def urlencoded__deserialize(v):
+    body, keep_blank, csv, h, pqs = _urlencoded_world(v)
+    with patched(v, 'falcon.media.urlencoded', 'parse_query_string', pqs):
+        out = v.call(h, body)
+    urlencoded_deserialize_post(v, body, pqs, keep_blank, csv, out)
+
+
+@harness(PROP, URLH + '.deserialize', setup=_codecs, inline=[URLH + '._deserialize'])
+def urlencoded_deserialize(v):
+    body, keep_blank, csv, h, pqs = _urlencoded_world(v)
+    src = ByteSource(body)
+    with patched(v, 'falcon.media.urlencoded', 'parse_query_string', pqs):
+        out = v.call(h, src, 'application/x-www-form-urlencoded', None)
+    v.check('reads-the-whole-body-with-one-unsized-read', src.reads == [None])
+    urlencoded_deserialize_post(v, body, pqs, keep_blank, csv, out)
+
+
+@harness(PROP, URLH + '.deserialize_async', setup=_codecs, inline=[URLH + '._deserialize'])
+def urlencoded_deserialize_async(v):
+    body, keep_blank, csv, h, pqs = _urlencoded_world(v)
+    src = ByteSource(body, is_async=True)
+    with patched(v, 'falcon.media.urlencoded', 'parse_query_string', pqs):
+        out = v.call(h, src, 'application/x-www-form-urlencoded', None)
+    v.check('reads-the-whole-body-with-one-unsized-read', src.reads == [None])
+    urlencoded_deserialize_post(v, body, pqs, keep_blank, csv, out)
+
+
+@harness(PROP, URLH + '._deserialize', name='urlencoded_empty_body', setup=_codecs, inline=['falcon.util.uri:parse_query_string'])
+def urlencoded_empty_body(v):
+    """An empty body yields what the handler documents: an empty dict (real parse_query_string, run on its source)."""
+    keep_blank = bool(v.choose(2, 'keep_blank'))
+    csv = bool(v.choose(2, 'csv'))
+    h = v.obj(URLH, _keep_blank=keep_blank, _csv=csv)
+    out = v.call(h, b'')
+    v.check('empty-body-is-an-empty-form', out.exc is None and isinstance(out.value, dict) and len(out.value) == 0)
+    v.cover('empty-form')
+
+
+@stubclass
+class UrlEncode:
+    """urllib.parse.urlencode: an ASCII query string."""
+
+    def __init__(self, v):
+        self.v = v
+        self.calls = []
+        self.results = []
+
+    def __call__(self, *args, **kwargs):
+        v = self.v
+        self.calls.append((args, kwargs))
+        r = v.str('urlencoded')
+        v.assume(in_re(v, r, 'ascii'))
+        self.results.append(r)
+        return r
+
+
+@harness(PROP, URLH + '.serialize', setup=_codecs)
+def urlencoded_serialize(v):
+    h = v.obj(URLH, _keep_blank=True, _csv=False)
+    media = Doc('form mapping')
+    ue = UrlEncode(v)
+    with patched(v, 'falcon.media.urlencoded', 'urlencode', ue):
+        out = v.call(h, media, 'application/x-www-form-urlencoded') if v.choose(2, 'content-type-passed') else v.call(h, media)
+    v.check('no-exception', out.exc is None)
+    if out.exc is not None:
+        return
+    ok = len(ue.calls) == 1
+    v.check('urlencode-called-exactly-once', ok)
+    if not ok:
+        return
+    args, kwargs = ue.calls[0]
+    v.check('urlencode-receives-the-media-with-doseq', len(args) == 1 and args[0] is media and kwargs == {'doseq': True})
+    v.check('returns-the-query-string-as-bytes', And(out.value == utf8_encoded(ue.results[0]), out.value == (SStr(ue.results[0].t, 'bytes') if isinstance(ue.results[0], SStr) else ue.results[0].encode('ascii'))))
+    v.cover('serialized')
+
+
+@harness(PROP, URLH + '.__init__')
+def urlencoded_init(v):
+    keep_blank = bool(v.choose(2, 'keep_blank'))
+    csv = bool(v.choose(2, 'csv'))
+    h = v.obj(URLH)
+    out = v.call(h, keep_blank, csv) if v.choose(2, 'explicit-args') else v.call(h)
+    v.check('no-exception', out.exc is None)
+    if out.exc is not None:
+        return
+    ss, ds = v.get(h, '_serialize_sync'), v.get(h, '_deserialize_sync')
+    v.check('sync-fast-path-is-serialize-and-_deserialize', fn_name(ss) == 'serialize' and fn_self(ss) is h and fn_name(ds) == '_deserialize' and fn_self(ds) is h)
+
+
+# ---------------------------------------------------------------------------
+# BaseHandler: sync <-> async bridges used by handlers that implement one side only
+
+
+@stubclass
+class GhostBytesIO:
+    def __init__(self, data):
+        self.data = data
+
+    def getvalue(self):
+        return self.data
+
+
+def _bridge_setup(reg, ex):
+    import io
+
+    reg.add_model(io.BytesIO, lambda I, data=b'': GhostBytesIO(data))
+
+
+class Recorder:
+    def __init__(self):
+        self.calls = []
+        self.result = None
+        self.raised = None
+
+
+def sync_only_handler(v, rec):
+    """A handler class that implements only the synchronous half (contract-side, runs natively)."""
+    Base = v.real(BASEH)
+
+    class SyncOnly(Base):
+        @native
+        def deserialize(self, stream, content_type, content_length):
+            rec.calls.append(('deserialize', self, stream, content_type, content_length))
+            return _either(v, rec)
+
+        @native
+        def serialize(self, media, content_type):
+            rec.calls.append(('serialize', self, media, content_type))
+            return _either(v, rec)
+
+    return SyncOnly
+
+
+def _either(v, rec):
+    if v.choose(2, 'sync-half-raises'):
+        rec.raised = mk_exc(v.real('falcon.errors:MediaMalformedError'), 'X')
+        throw(v, rec.raised)
+    rec.result = Doc('result of the synchronous half')
+    return rec.result
+
+
+@harness(PROP, BASEH + '.deserialize_async', setup=_bridge_setup)
+def base_deserialize_async(v):
+    rec = Recorder()
+    h = v.obj(sync_only_handler(v, rec))
+    body = in_bytes(v, 'body')
+    src = ByteSource(body, is_async=True)
+    ct = v.str('content_type') if v.choose(2, 'content-type?') else None
+    cl = v.int('content_length', 0) if v.choose(2, 'content-length?') else None
+    out = v.call(h, src, ct, cl)
+    v.check('reads-the-whole-body-with-one-unsized-read', src.reads == [None])
+    ok = len(rec.calls) == 1
+    v.check('delegates-to-deserialize-exactly-once', ok)
+    if not ok:
+        return
+    _, self_, stream, ct1, cl1 = rec.calls[0]
+    v.check('delegates-on-the-same-handler', self_ is h)
+    content = stream.getvalue() if hasattr(stream, 'getvalue') else None
+    v.check('sync-half-sees-a-stream-holding-exactly-the-body', content is not None and content == body)
+    v.check('content-type-passed-through', (ct1 is None) if ct is None else (ct1 == ct))
+    v.check('content-length-is-the-actual-body-length', cl1 == Len(body))
+    if rec.raised is not None:
+        v.check('error-of-the-sync-half-propagates-identical', out.exc is not None and same_exc(out.exc, rec.raised))
+    else:
+        v.check('returns-what-the-sync-half-returned', out.exc is None and out.value is rec.result)
+        v.cover('bridged')
+
+
+@harness(PROP, BASEH + '.serialize_async')
+def base_serialize_async(v):
+    rec = Recorder()
+    h = v.obj(sync_only_handler(v, rec))
+    media = Doc('response media')
+    ct = v.str('content_type')
+    out = v.call(h, media, ct)
+    ok = len(rec.calls) == 1
+    v.check('delegates-to-serialize-exactly-once', ok)
+    if not ok:
+        return
+    _, self_, m1, ct1 = rec.calls[0]
+    v.check('delegates-with-the-same-media-and-content-type', And(self_ is h and m1 is media, ct1 == ct))
+    if rec.raised is not None:
+        v.check('error-of-the-sync-half-propagates-identical', out.exc is not None and same_exc(out.exc, rec.raised))
+    else:
+        v.check('returns-what-the-sync-half-returned', out.exc is None and out.value is rec.result)
+        v.cover('bridged')
+
+
+# ---------------------------------------------------------------------------
+# Response: media is rendered once, assignment resets the rendering
+
+
+@stubclass
+class Serializer:
+    """Any media handler as the response side sees it."""
+
+    def __init__(self, v, trace):
+        self.v = v
+        self.trace = trace
+        self.results = []
+
+    def _render(self):
+        r = Doc('rendered body #%d' % len(self.results)) if self.v.choose(2, 'handler-returns-None') == 0 else None
+        self.results.append(r)
+        return r
+
+    def serialize(self, media, content_type):
+        self.trace.append(('serialize', media, content_type))
+        return self._render()
+
+    def serialize_async(self, media, content_type):
+        self.trace.append(('serialize_async', media, content_type))
+        return Ready(self._render())
+
+    def serialize_sync(self, media):
+        self.trace.append(('serialize_sync', media))
+        return self._render()
+
+
+def mk_resp(v, asgi, state=None, media_kinds=2, simple=False):
+    w = World()
+    w.asgi = asgi
+    w.trace = []
+    w.handler = Serializer(v, w.trace)
+    w.sync_path = bool(asgi and not simple and v.choose(2, 'serialize_sync-offered'))
+    w.registry = HandlerRegistry(v, w.trace, w.handler, sync_path=w.sync_path, may_fail=False)
+    w.options = Options(w.registry)
+    k = 0 if simple else v.choose(3, 'resp-content-type')
+    w.ct = [None, '', None][k] if k != 2 else v.str('resp_content_type')
+    if k == 2:
+        v.assume(Len(w.ct) > 0)
+    UNSET = unset(v)
+    w.media = Doc('assigned media') if v.choose(media_kinds, 'media-assigned') == 0 else None
+    w.rendered0 = UNSET
+    st = v.choose(2, 'already-rendered') if state is None else state
+    if st:
+        w.rendered0 = Doc('cached rendering') if v.choose(2, 'cached-rendering-is-None') == 0 else None
+    w.resp = v.obj(ARESP if asgi else WRESP, _headers={}, content_type=w.ct, text=None, _data=None, _media=w.media, _media_rendered=w.rendered0, options=w.options)
+    return w
+
+
+def spec_render_body(v, w, out):
+    UNSET = unset(v)
+    resp, trace = w.resp, w.trace
+    v.check('no-exception', out.exc is None)
+    if out.exc is not None:
+        return
+    r1 = v.get(resp, '_media_rendered')
+    if w.media is None:
+        v.check('no-media-renders-nothing', out.value is None and len(trace) == 0)
+        v.check('no-media-leaves-rendering-cache-alone', r1 is w.rendered0)
+        v.cover('no-media')
+        return
+    if w.rendered0 is not UNSET:
+        v.check('cached-rendering-returned-identical', out.value is w.rendered0)
+        v.check('cached-rendering-does-not-serialize-again', len(trace) == 0)
+        v.check('cached-rendering-kept', r1 is w.rendered0 and v.get(resp, '_media') is w.media)
+        v.cover('cached')
+        return
+    # first rendering of the assigned media
+    ct_eff = DEFAULT_MEDIA_TYPE if (w.ct is None or (isinstance(w.ct, str) and w.ct == '')) else w.ct
+    if w.asgi and w.sync_path:
+        want = [('resolve', ct_eff, DEFAULT_MEDIA_TYPE), ('serialize_sync', w.media)]
+    elif w.asgi:
+        want = [('resolve', ct_eff, DEFAULT_MEDIA_TYPE), ('serialize_async', w.media, ct_eff)]
+    else:
+        want = [('resolve', ct_eff, DEFAULT_MEDIA_TYPE), ('serialize', w.media, ct_eff)]
+    v.check('one-resolution-then-one-serialization-of-the-assigned-media', seq_eq(trace, want))
+    if len(w.handler.results) != 1:
+        return
+    v.check('returns-what-the-handler-serialized', out.value is w.handler.results[0])
+    v.check('rendering-cached', r1 is w.handler.results[0] and r1 is not UNSET)
+    v.check('content-type-defaults-to-the-default-media-type', v.get(resp, 'content_type') == ct_eff)
+    v.check('media-kept', v.get(resp, '_media') is w.media)
+    v.cover('rendered')
+
+
+@harness(PROP, WRESP + '.render_body')
+def wsgi_render_body_media(v):
+    w = mk_resp(v, asgi=False)
+    out = v.call(w.resp)
+    spec_render_body(v, w, out)
+
+
+@harness(PROP, ARESP + '.render_body')
+def asgi_render_body_media(v):
+    w = mk_resp(v, asgi=True)
+    out = v.call(w.resp)
+    spec_render_body(v, w, out)
+
+
+@harness(PROP, WRESP + '.media@setter')
+def resp_media_setter(v):
+    UNSET = unset(v)
+    w = mk_resp(v, asgi=bool(v.choose(2, 'asgi')), simple=True)
+    new = Doc('newly assigned media') if v.choose(2, 'assign-None') == 0 else None
+    out = v.call(w.resp, new)
+    v.check('no-exception', out.exc is None)
+    v.check('assignment-stores-the-object', v.get(w.resp, '_media') is new)
+    v.check('assignment-resets-the-rendering-cache', v.get(w.resp, '_media_rendered') is UNSET)
+    v.check('assignment-does-not-serialize', len(w.trace) == 0)
+
+
+@harness(PROP, WRESP + '.media')
+def resp_media_getter(v):
+    w = mk_resp(v, asgi=bool(v.choose(2, 'asgi')), simple=True)
+    out = v.call(w.resp)
+    v.check('returns-the-assigned-object', out.exc is None and out.value is w.media)
+    v.check('reading-does-not-serialize-or-touch-the-cache', len(w.trace) == 0 and v.get(w.resp, '_media_rendered') is w.rendered0)
+
+
+def _history(v, asgi):
+    """render; resp.media = m2; render; render  ->  serializations are exactly [m1, m2], bodies follow the assignment."""
+    w = mk_resp(v, asgi=asgi, state=0, media_kinds=1)
+    target = (ARESP if asgi else WRESP) + '.render_body'
+    o1 = v.call(w.resp, target=target)
+    m2 = Doc('second media')
+    v.call(w.resp, m2, target=WRESP + '.media@setter')
+    o2 = v.call(w.resp, target=target)
+    o3 = v.call(w.resp, target=target)
+    sers = [e for e in w.trace if e[0].startswith('serialize')]
+    v.check('no-exception', o1.exc is None and o2.exc is None and o3.exc is None)
+    v.check('each-assignment-serialized-exactly-once-in-order', len(sers) == 2 and sers[0][1] is w.media and sers[1][1] is m2)
+    if len(w.handler.results) != 2:
+        return
+    v.check('body-follows-the-latest-assignment', o1.value is w.handler.results[0] and o2.value is w.handler.results[1] and o3.value is w.handler.results[1])
+    v.cover('history')
+
+
+@harness(PROP, WRESP + '.render_body', name='wsgi_render_assign_render')
+def wsgi_render_assign_render(v):
+    _history(v, False)
+
+
+@harness(PROP, ARESP + '.render_body', name='asgi_render_assign_render')
+def asgi_render_assign_render(v):
+    _history(v, True)
+
+
+ASSUMPTIONS = [
+    'stdlib json (dependency contract, not proved): loads(dumps(m)) == m for every JSON-representable m; dumps returns a non-empty text; '
+    'loads raises only ValueError (json.JSONDecodeError, UnicodeDecodeError are subclasses) -- RecursionError on pathologically deep nesting is outside this contract',
+    'the text dumps returns has no lone surrogate code points (U+D800..U+DFFF): str.encode("utf-8") raises UnicodeEncodeError otherwise. '
+    'Witness outside the assumption, on the unchanged tree: JSONHandler().serialize({"k": "\\ud83d"}, "application/json") raises UnicodeEncodeError '
+    '(dumps uses ensure_ascii=False), although json.loads accepts the body {"k": "\\ud83d"} and stdlib json round-trips that document',
+    'Python codecs: bytes.decode("utf-8") succeeds exactly on the RFC 3629 language and raises UnicodeDecodeError (a ValueError) otherwise; '
+    'bytes.decode("ascii") succeeds exactly on code points < 128 and keeps them; s.encode("utf-8").decode("utf-8") == s for every str without surrogates; '
+    'ASCII text encodes to the same code points',
+    'Handlers._resolve(media_type, default) (contract of C11, stubbed): returns (handler, handler._serialize_sync, handler._deserialize_sync) or raises HTTPUnsupportedMediaType',
+    'request body streams (contract of C07, stubbed): read() without a size returns the whole declared body whatever the chunking; exhaust() consumes what is left',
+    'falcon.util.uri.parse_query_string and urllib.parse.urlencode are opaque (contracts of C08/C10): "parse(urlencode(form)) == form" is not proved here',
+    'Response.content_type is a plain get/set of the Content-Type header (symbolic runs shadow the header property with a field; replays use the real property)',
+    'a media handler may return any object or None, and may raise MediaNotFoundError, MediaMalformedError or any other Exception (all explored); BaseException subclasses '
+    'that are not Exception (KeyboardInterrupt, ...) are not cached by get_media and are outside the statement',
+]
+NOT_DECIDED = [
+    'the JSON round trip itself (loads(dumps(m)) == m) and the form round trip (parse_query_string(urlencode(f)) == f): dependency contracts, see ASSUMPTIONS; '
+    'what is proved is the plumbing: deserialize(stream over serialize(m)) calls loads exactly once with exactly the text dumps(m) returned',
+    'falcon/asgi/app.py App.__call__ contains an inlined copy of asgi Response.render_body (media branch, about 20 lines inside a 400-line coroutine): read, same shape, not executed symbolically',
+    'App-level wiring (which Request/Response options object reaches the handlers; that the WSGI/ASGI apps call render_body once per response)',
+    'URLEncodedFormHandler docstring promises MediaMalformedError for percent-encoded bytes that are not UTF-8; falcon.util.uri.decode replaces them with U+FFFD instead '
+    '(b"a=%FF" -> {"a": "\\ufffd"}): behaviour of the C08/C10 parser, opaque here',
+    'in-place mutation of an already rendered media object (resp.media["k"] = 1 after render_body) keeps the stale rendering: the statement speaks about assignment only',
+    'other handlers (MessagePackHandler, MultipartFormHandler -> C13, JSONHandlerWS)',
+]
+TRUSTED = [
+    'ghost stubs in contracts/C12_media.py: MediaHandler, HandlerRegistry, Options, WsgiBody, AsgiBody, ByteSource, Loads, Dumps, ParseQS, UrlEncode, Serializer, GhostBytesIO, SyncOnly',
+    'codec_model in contracts/C12_media.py (utf-8 / ascii / latin-1 strict; UTF-8 validity as the exact regular language; encode/decode as uninterpreted functions with the round-trip axiom)',
+    'opaque dependencies are substituted by rebinding the module-level name in the overlay module while the subject runs (class `patched`): parse_query_string, urlencode in falcon.media.urlencoded',
+    'property access `req.media` goes through the executor\'s attribute lookup on the real class object (property -> fget -> source of get_media)',
+]
 KILLS = [
     # value caching dropped: a later call parses again
     ('falcon/request.py', '        if self._media is not _UNSET:\n            return self._media\n        if self._media_error is not None:\n',
@@ -439,5 +1290,43 @@ KILLS = [
     # cached error: default returned for any cached error, not only MediaNotFoundError (ASGI)
     ('falcon/asgi/request.py', '            if default_when_empty is not _UNSET and isinstance(\n                self._media_error, errors.MediaNotFoundError\n            ):\n',
      '            if default_when_empty is not _UNSET:\n', 'asgi.request:Request.get_media#cached-error-reraised-identical'),
+    # a new request starts with None instead of the sentinel: get_media() would return None without parsing
+    ('falcon/request.py', '        self._media: UnsetOr[Any] = _UNSET\n', '        self._media: UnsetOr[Any] = None\n', 'Request.__init__#new-request-is-fresh'),
+    # JSON: empty-body check removed
+    ('falcon/media/json.py', "        if not data:\n            raise errors.MediaNotFoundError('JSON')\n", '', 'JSONHandler._deserialize#empty-body-raises-media-not-found'),
+    # JSON: only JSONDecodeError mapped to 400; UnicodeDecodeError / plain ValueError become a 500
+    ('falcon/media/json.py', '        except ValueError as err:\n', '        except json.JSONDecodeError as err:\n',
+     'JSONHandler._deserialize#bytes-that-are-not-utf8-raise-malformed-media-400'),
+    # JSON: body read bounded by the (client supplied, possibly absent) Content-Length
+    ('falcon/media/json.py', '        return self._deserialize(stream.read())\n', '        return self._deserialize(stream.read(content_length or 0))\n',
+     'JSONHandler.deserialize#reads-the-whole-body-with-one-unsized-read'),
+    # JSON: text serialised with the wrong charset
+    ('falcon/media/json.py', '    def _serialize_s(self, media: Any, content_type: Optional[str] = None) -> bytes:\n        return self._dumps(media).encode()',
+     "    def _serialize_s(self, media: Any, content_type: Optional[str] = None) -> bytes:\n        return self._dumps(media).encode('latin-1')",
+     'JSONHandler._serialize_s#returns-dumps-text-encoded-as-utf8'),
+    # JSON: serializer selection inverted
+    ('falcon/media/json.py', '        if isinstance(result, str):\n', '        if isinstance(result, bytes):\n', 'JSONHandler.__init__#serializer-encodes-iff-dumps-returns-text'),
+    # URL-encoded: only decoding errors mapped, parser errors become a 500
+    ('falcon/media/urlencoded.py', '        except Exception as err:\n', '        except UnicodeDecodeError as err:\n',
+     'URLEncodedFormHandler._deserialize#any-parser-exception-raises-malformed-media-400'),
+    # URL-encoded: ASCII enforcement dropped
+    ('falcon/media/urlencoded.py', "            body_str = body.decode('ascii')\n", '            body_str = body.decode()\n',
+     'URLEncodedFormHandler._deserialize#non-ascii-body-raises-malformed-media-400'),
+    # async bridge passes the client's Content-Length instead of the real length
+    ('falcon/media/base.py', '        content_length = len(data)\n', '', 'BaseHandler.deserialize_async#content-length-is-the-actual-body-length'),
+    # Response: assignment does not reset the rendering
+    ('falcon/response.py', '        self._media = value\n        self._media_rendered = _UNSET\n', '        self._media = value\n',
+     'Response.media@setter#assignment-resets-the-rendering-cache'),
+    # Response: rendering not reused
+    ('falcon/response.py', '                if self._media_rendered is _UNSET:\n', '                if True:\n', 'response:Response.render_body#cached-rendering-returned-identical'),
+    # ASGI Response: Content-Type fallback dropped
+    ('falcon/asgi/response.py', '                    if not self.content_type:\n                        self.content_type = self.options.default_media_type\n', '',
+     'asgi.response:Response.render_body#one-resolution-then-one-serialization-of-the-assigned-media'),
 ]
-HARMLESS = []
+HARMLESS = [
+    ('falcon/media/json.py', '            return self._loads(data.decode())\n', '            text = data.decode()\n            return self._loads(text)\n'),
+    ('falcon/request.py', '        if self._media is not _UNSET:\n            return self._media\n',
+     '        cached = self._media\n        if cached is not _UNSET:\n            return cached\n'),
+    ('falcon/response.py', '                    handler, _, _ = self.options.media_handlers._resolve(\n',
+     '                    handler, _ser, _deser = self.options.media_handlers._resolve(\n'),
+]
